@@ -116,7 +116,8 @@ def check_case(case, ctx):
                     break
         except Exception as e:
             v.append(f"re-using one Mandoline object raised {type(e).__name__}: {e} (p2={p2!r} then p={p!r} twice, serial={hserial})")
-    if case.get("cli"):
+    if case.get("cli") or (p is not None and float(p) == 0.0) or (limit == 0 and case["pos"]["index"] % 2 == 0):
+        # (always through the command line too when the position is exactly 0.0 or the limit is 0: values that read as "not given")
         # the command line entry point, array format: the saved .npz must hold the arrays the API returns
         import amr_kitchen.mandoline.cli as cli
         from . import common
